@@ -3,9 +3,9 @@ import copy
 from core import rng_for, mk, bits_of, L, R, randbits, Buffer, Padding, snapshot, impl_outcome
 import p_buffer_common as bc
 from schc_run import Batch, obs_bits, with_timeout, parse_model_bits, parser_for
-from schc_util import n_rule, n_pdesc, rules_tokens, pdesc_tokens, tb, DIRC, gen_rule, KINDS
+from schc_util import n_rule, n_pdesc, rules_tokens, pdesc_tokens, tb, DIRC, gen_rule, gen_rfd, KINDS
 from gens import gen_parsed, gen_ruleset, b2s, gen_packet
-from microschc.rfc8724 import (FieldDescriptor, PacketDescriptor, RuleFieldDescriptor, RuleDescriptor, MatchMapping,
+from microschc.rfc8724 import (FieldDescriptor, PacketDescriptor, RuleFieldDescriptor, RuleDescriptor, MatchMapping, RuleNature,
                                DirectionIndicator as DI)
 from microschc.rfc8724extras import Context
 from microschc.manager import ContextManager
@@ -95,6 +95,34 @@ def histories(rep, rnd, tier):
         for step in range(steps):
             r = rnd.random()
             d = rnd.choice([DI.UP, DI.DOWN])
+            if step and rnd.random() < 0.08:
+                # the configuration changes while the manager lives: results must follow the CURRENT rule set
+                # (nothing derived from an earlier state of a rule or of the rule list may survive)
+                pdk = rnd.choice(seeds)[3]
+                pdk.direction = rnd.choice([DI.UP, DI.DOWN])
+                kind = rnd.choice(['replace-rule', 'replace-descriptor', 'append-rule'])
+                comp = [j for j, x in enumerate(rules) if x.nature is RuleNature.COMPRESSION and x.field_descriptors]
+                if kind == 'replace-rule' and comp:
+                    j = rnd.choice(comp)
+                    rules[j] = gen_rule(rnd, pdk, bits_of(rules[j].id), kinds=KINDS)
+                elif kind == 'replace-descriptor' and comp:
+                    j = rnd.choice(comp)
+                    fdl = rules[j].field_descriptors
+                    i_ = rnd.randrange(len(fdl))
+                    fld = [f for f in pdk.fields if str(f.id) == str(fdl[i_].id)]
+                    if fld:
+                        fdl[i_] = gen_rfd(rnd, fld[0], rnd.choice(('ns', 'vs', 'vsv', 'lsb', 'lsbv', 'map')), fdl[i_].direction)
+                elif kind == 'append-rule':
+                    used = [bits_of(x.id) for x in rules]
+                    for _ in range(20):
+                        cand = randbits(rnd, rnd.randint(3, 12))
+                        if all(not cand.startswith(u) and not u.startswith(cand) for u in used):
+                            rules.insert(rnd.randrange(len(rules)), gen_rule(rnd, pdk, cand, kinds=KINDS))
+                            break
+                nrs = [n_rule(x) for x in rules]
+                struct0 = structure(ctx)
+                produced = []
+                rep.hist['history:edit:' + kind] = rep.hist.get('history:edit:' + kind, 0) + 1
             strat = rnd.choice([MatchStrategy.FIRST, MatchStrategy.BEST])
             fresh = ContextManager(Context.from_json(ctx.json()))        # an independent manager built from the serialised context
             if r < 0.55 or not produced:
